@@ -392,6 +392,61 @@ pub fn run_check(ctx: &Ctx) -> i32 {
         vec![Reg::El(0), Reg::DocText], full.clone(),
     ];
     slice_ctx(ctx, &format!("5 foreign / integration-point prefixes x 14-event foreign alphabet (unhashable names, self-closing, end tags inside integration points) <={} x {} selector sets x {} registration sets, with cuts", if quick { 3 } else { 4 }, fsel.len(), fregs.len()), &fprefixes, &falpha, if quick { 3 } else { 4 }, &confs(&fsel, &fregs, false), true);
+    // scaled documents: nesting deeper than 16 / 32 / 64 open elements, many siblings closed by an
+    // ancestor's end tag, handlers switched on and off many times
+    {
+        let counts: &[usize] = if quick { &[17, 33, 65] } else { &[8, 9, 16, 17, 32, 33, 64, 65, 129, 300] };
+        let mut docs: Vec<(String, Vec<DEv>)> = vec![];
+        for &n in counts {
+            let mut d: Vec<DEv> = (0..n).map(|_| DEv::open("a")).collect();
+            d.extend([DEv::Text("t".into()), DEv::Comment("c".into()), DEv::open("q"), DEv::Text("t".into()), DEv::close("q")]);
+            d.extend((0..n / 2).map(|_| DEv::close("a")));
+            d.extend([DEv::Text("t".into()), DEv::open("q"), DEv::Comment("c".into())]);
+            docs.push((format!("nesting depth {n}, half closed"), d));
+            let mut d = vec![DEv::open("q")];
+            for _ in 0..n {
+                d.push(DEv::open_a("a", " class=c", &[("class", "c")]));
+                d.push(DEv::Text("t".into()));
+            }
+            d.extend([DEv::close("q"), DEv::open("a"), DEv::Text("t".into())]);
+            docs.push((format!("{n} unclosed siblings closed by the ancestor's end tag"), d));
+            let mut d = vec![];
+            for i in 0..n {
+                d.extend([DEv::open(if i % 3 == 2 { "q" } else { "a" }), DEv::Text("t".into()), DEv::close(if i % 3 == 2 { "q" } else { "a" }), DEv::Comment("c".into())]);
+            }
+            docs.push((format!("{n} elements opened and closed in turn"), d));
+        }
+        let ssel: Vec<Vec<SelList>> = vec![vec![pool[0].clone(), pool[1].clone()], vec![pool[4].clone(), pool[0].clone()], vec![pool[2].clone(), pool[6].clone()], vec![pool[5].clone(), pool[9].clone()]];
+        let cs = confs(&ssel, &[full.clone(), full_rev.clone(), with_remover2.clone()], false);
+        par_for(docs.len(), 1, |di| {
+            if ctx.over_time() {
+                return;
+            }
+            let (label, evs) = &docs[di];
+            if !build_tree(evs).in_domain {
+                return;
+            }
+            for c in &cs {
+                for cut in [false, true] {
+                    let (m, calls, n) = check(&c.p, &c.sels, &c.regs, evs, cut);
+                    ctx.exec(calls);
+                    ctx.validated(1);
+                    if n > 0 {
+                        ctx.nontrivial.insert(digest(&(di, &c.regs, c.sels.len())));
+                    }
+                    if let Some(msg) = m {
+                        let case = json!({"selectors": c.sels, "regs": c.regs, "doc": evs, "document": label, "cut": cut, "merge": false});
+                        let c2 = case.clone();
+                        ctx.violation(msg, case, &|| replay(&c2));
+                    }
+                }
+            }
+            ctx.states.insert(digest(evs));
+        });
+        if !ctx.capped.load(std::sync::atomic::Ordering::Relaxed) {
+            ctx.level_done(&format!("{} scaled documents (nesting depths, unclosed siblings, open/close runs of {:?}) x 4 selector sets x 3 registration sets, with cuts", docs.len(), counts));
+        }
+    }
     // wide configuration: 34 never-matching registrations first, so that the interesting handlers
     // have registration indices beyond one 32-bit word of the matcher's id sets
     let mut wide_sels: Vec<SelList> = (0..34).map(|i| SelList::one(Complex::single(ty(&format!("zz{i}"))))).collect();
